@@ -43,6 +43,10 @@ structure Env where
   selfCls : Nat
   /-- `re.compile(regex_k).match(s) is not None` (String trait; parameter). -/
   rx : Nat → String → Bool
+  /-- `w` is an adapter object offering protocol `cls` (used by the domain predicate only). -/
+  provides : Val → Ty → Bool := fun _ _ => false
+  /-- `w` is a value validator function `f` may return (used by the domain predicate only). -/
+  fnRange : Nat → Val → Bool := fun _ _ => true
 
 /-- A fast-validation descriptor: the tuple `_trait_set_validate` stores.
 Numbering: `Desc.kind`. -/
